@@ -92,6 +92,17 @@ CHECKS = {
         note="In-place targets keeping their flag is checked under C04/C05. Known findings: constant copy keeps grad (pinned by a test), clip without bounds ignores constant=. Trusted: Coq kernel, harness. No axioms.",
         technique="Coq proofs (finite case analysis + invariant over histories) + exhaustive lattice correspondence by vm_compute + differential oracle",
     ),
+    "C13": dict(
+        text="Machine-checked (Coq): in the history model a statement that raises returns the state unchanged, hence a history reaches exactly the state of the same history without its failing statements "
+             "(C13_same_final_state_without_failing_statements, by induction over histories); the lock automaton restores every flag once the failed operation's locks are released. Fault enumeration on /repo: "
+             "13 kinds of failing statements (non-view ops, view ops, in-place updates incl. shape assignment) inserted at random positions of family histories, some after a mid-history backward: (a) the statement raises, "
+             "(b) every live tensor is bit-for-bit as before (value, shape, flag, base, sharing, writeable flag, gradient, creator/consumer state), (c) final values and gradients equal those of the program without the "
+             "failing statements (run separately), (d) the functional model agrees.",
+        design_ref="DESIGN.md 5 (C13)",
+        note="The model's failure points are 'validation fails before anything is touched'; that the real rollback (restore_old_graph after placeholders replaced the public tensors) achieves this is what the fault "
+             "enumeration checks. Faults inside NumPy kernels are not injected. No axioms.",
+        technique="Coq proof (failed step = identity, induction over histories) + fault enumeration with before/after and with/without differential",
+    ),
     "C14": dict(
         text="Machine-checked proofs (Coq): on the history model, for every state satisfying the invariant (hence every reachable state), L.backward() and L.sum().backward() have the same outcome and leave the same gradient "
              "in every earlier tensor, likewise L.backward(g) and (L*g).sum().backward(); a seed is accepted exactly when its shape broadcasts INTO L's shape; reduce_broadcast restores exactly the variable's shape "
@@ -189,7 +200,7 @@ def main():
 
 
 # fix: commits in /repo (filled in as they are made)
-SOURCE_COMMITS = ["1caf915", "cac9d7b", "4b729bd", "9cd2617", "683fb85", "e7ddae4", "48f0694", "9e68f28"]
+SOURCE_COMMITS = ["1caf915", "cac9d7b", "4b729bd", "9cd2617", "683fb85", "e7ddae4", "48f0694", "9e68f28", "6f83c95", "8bae1ec"]
 
 if __name__ == "__main__":
     main()
